@@ -585,7 +585,12 @@ var Presets = []string{"default", "far", "skew", "upgrade"}
 //	         where possible
 //	upgrade  every void/byte/pointer list encoded as composite list; every
 //	         other object reached through a same-segment far pointer
-func Preset(v Value, name string) Layout {
+func Preset(v Value, name string) Layout { return PresetFrom(v, name, 0) }
+
+// PresetFrom is Preset with the deviations applied only to the objects whose
+// pre-order index is >= from (0 is the root object); the others keep the
+// default layout.  Used to deviate a sub-object but not a wrapper around it.
+func PresetFrom(v Value, name string, from int) Layout {
 	b := &lbuilder{}
 	b.root = b.build(v, -1)
 	var chosen []lopt
@@ -596,6 +601,9 @@ func Preset(v Value, name string) Layout {
 		}
 	}
 	for _, o := range b.options() {
+		if o.obj < from {
+			continue
+		}
 		zero := b.objs[o.obj].v.Kind == KindStruct && len(b.objs[o.obj].v.Data) == 0 && len(b.objs[o.obj].v.Ptrs) == 0
 		take := false
 		switch name {
